@@ -150,10 +150,34 @@ func (ds *dataStore) enterListMultiBlock(keyNames []string) (ws *wakeSignal) {
 	return ds.waitingClients.enterMultiWait(keyNames)
 }
 
-func (ds *dataStore) leaveListBlock(ws *wakeSignal) {
+// Ends a client's wait. unserved tells that the client leaves without an element: a
+// wake-up it was handed but did not use (its timeout, CLIENT UNBLOCK or the end of its
+// connection won the race) then goes to the next client waiting for that list, or the
+// pushed element would sit in the list with clients blocked on it.
+func (ds *dataStore) leaveListBlock(ws *wakeSignal, unserved bool) {
 	ds.mu.Lock()
 	defer ds.mu.Unlock()
+
+	unused := false
+	select {
+	case <-ws.ready:
+		unused = true
+	default:
+	}
 	ds.waitingClients.disposeWakeSignal(ws)
+
+	if unused && unserved {
+		for _, name := range ws.names {
+			sk, exists := ds.getStoreKey(name)
+			if !exists || sk.isExpiredUnlocked() {
+				continue
+			}
+			if list := sk.getList(); list != nil && list.count > 0 {
+				ds.waitingClients.unblock(name, 1)
+				break
+			}
+		}
+	}
 }
 
 func (ds *dataStore) unblockListUnlocked(keyName string, elements int) {
